@@ -94,13 +94,13 @@ func NewPREF64(prefix netip.Prefix, maxInterval time.Duration) *PREF64 {
 	// Calculate the scaled lifetime using MaxRtrAdvInterval.
 	// See https://datatracker.ietf.org/doc/html/rfc8781#section-4.1-2
 	lifetime := maxPref64Lifetime
-	if int(maxInterval.Seconds())*3 < int(lifetime.Seconds()) {
-		lifetimeSeconds := int(maxInterval.Seconds()) * 3
-		if r := int(lifetimeSeconds) % 8; r > 0 {
-			lifetimeSeconds += 8 - r
+	if 3*maxInterval < lifetime {
+		// Round up to a multiple of 8 seconds, the unit of the option's
+		// scaled lifetime field.
+		lifetime = 3 * maxInterval
+		if r := lifetime % (8 * time.Second); r > 0 {
+			lifetime += 8*time.Second - r
 		}
-
-		lifetime = time.Duration(lifetimeSeconds) * time.Second
 	}
 
 	return &PREF64{
